@@ -46,7 +46,7 @@ LEVELS = {
             "components": {"real": ["pkg/core", "pkg/cafs", "pkg/storage/localfs"], "stub": STUB},
             "assumptions": []},
     "C18": {"level": "exploration", "rule": RULE + "; here a run is one random operation program (<= 60 operations) followed by a scheduled commit and download",
-            "text": "random programs of CreateFile, MkDir, WriteFile, SetInodeAttributes(size), ReadFile (also across EOF, as page-sized kernel reads are), LookUpInode (existing and missing names), Unlink, RmDir (empty and non-empty), Rename (onto a free name, file onto file), GetInodeAttributes + ReadDir, and ForgetInode with the kernel's counting (all references of an unlinked node; of a live node under cache pressure, followed later by a fresh lookup) over 4 names, on a real staging directory; each answer (success / errno, inode, type, size, st_nlink, bytes, directory content) is compared with a reference POSIX tree and no two live entries may share an inode; the mount is then committed into the simulated stores under the scheduler and the bundle downloaded: its files equal the visible tree",
+            "text": "random programs of CreateFile, MkDir, WriteFile, SetInodeAttributes(size), ReadFile (also across EOF, as page-sized kernel reads are), LookUpInode (existing and missing names), Unlink, RmDir (empty and non-empty), Rename (onto a free name, file onto file), GetInodeAttributes + ReadDir (one large buffer, or buffers of one or two entries resumed at each returned offset), and ForgetInode with the kernel's counting (all references of an unlinked node; of a live node under cache pressure, followed later by a fresh lookup) over 4 names, on a real staging directory; each answer (success / errno, inode, type, size, st_nlink, bytes, directory content) is compared with a reference POSIX tree and no two live entries may share an inode; the mount is then committed into the simulated stores under the scheduler and the bundle downloaded: its files equal the visible tree",
             "note": "only requests a kernel can send are generated (the VFS answers EEXIST / EISDIR / ENOTDIR / same-entry renames itself; directory-over-directory renames are not generated); a fatal Go error or a panic outside the caller's goroutine kills the worker and is reported with its seed",
             "components": {"real": ["pkg/fuse mutable file system + commit", "pkg/core", "pkg/cafs", "afero OsFs staging directory"], "stub": STUB},
             "assumptions": ["one caller (the statement quantifies over programs, not schedules)"]},
